@@ -12,6 +12,9 @@ pub fn payload_string(p: &Box<dyn Any + Send>) -> String {
 
 /// Silence the default panic hook (injected panics are part of normal runs).
 pub fn quiet_panics() {
+    if std::env::var_os("VERIF_SHOW_PANICS").is_some() {
+        return;
+    }
     std::panic::set_hook(Box::new(|_| {}));
 }
 
